@@ -141,3 +141,17 @@ SELECT
     a * 2 AS doubled
 FROM tbl
 WHERE a BETWEEN 1 AND 10
+-- ----
+SELECT
+    tbl.a,
+    tbl.b
+FROM tbl
+WHERE tbl.a > 1
+-- ----
+SELECT
+    o.id,
+    c.name
+FROM orders AS o
+INNER JOIN customers AS c
+    ON o.customer_id = c.id
+WHERE c.name IS NOT NULL
